@@ -58,7 +58,7 @@ class StepInterp(Interp):
     def method_hook(self, base, m, args, e):
         if isinstance(base, tuple) and base and base[0] == 'module' and base[1] == 'functools' and m == 'partial' and args:
             return ('partial', args[0], tuple(args[1:]))
-        return NotImplemented
+        return super().method_hook(base, m, args, e)
 
     def prepare(self, scope, limit, globals_init=None):
         self.events = []
@@ -240,7 +240,7 @@ class IncludeInterp(StepInterp):
             if tag == 'log':
                 self.events.append(('log', args[0] if args else None))
                 return None
-        return NotImplemented
+        return super().call_value_hook(fn, args, e)
 
     def _evaluate(self, args, node):
         v = super()._evaluate(args, node)
